@@ -78,6 +78,16 @@ func kdfOpts(quick bool) []kdfOpt {
 	for _, x := range sis {
 		r = append(r, kdfOpt{fmt.Sprintf("smpbkdf2/salt=%d/c=%d", x.salt, x.iter), pkcs.NewSMPBKDF2Opts(x.salt, x.iter)})
 	}
+	// the ShangMi PBKDF OID with every PRF through the exported HMACHash field (the OID decides the default PRF of the
+	// decoder, so encoder and decoder must agree for every hash, also where it equals a DER DEFAULT)
+	for _, p := range prfs {
+		if p.name == "sm3" {
+			continue
+		}
+		o := pkcs.NewSMPBKDF2Opts(sis[0].salt, sis[0].iter)
+		o.HMACHash = p.h
+		r = append(r, kdfOpt{fmt.Sprintf("smpbkdf2-%s/salt=%d/c=%d", p.name, sis[0].salt, sis[0].iter), o})
+	}
 	r = append(r,
 		kdfOpt{"scrypt/N=16/r=8/p=1/salt=16", pkcs.NewScryptOpts(16, 16, 8, 1)},
 		kdfOpt{"scrypt/N=16/r=1/p=2/salt=8", pkcs.NewScryptOpts(8, 16, 1, 2)},
